@@ -35,8 +35,12 @@ def check(text, tree):
         return "skip:invalid-output", []
     if cst.norm_token_keys(out_tree) != cst.norm_token_keys(tree):
         return "skip:tokens-differ", []
+    if not cst.env_ok(out):
+        return "skip:env-limit-output", []
     status2, out2 = RT.rebuild(out)
     fails = []
+    if status2 == "refused" and out2.startswith("timeout"):
+        return "skip:timeout", []
     if status2 != "ok":
         fails.append(("second-pass-" + status2, {"msg": out2, "out": out[:300]}))
     elif out2 != out:
@@ -56,13 +60,80 @@ def _nontrivial(ast, perts, status, text):
 CFG = RT.Config(ID, CLASSES, check, nontrivial=_nontrivial)
 
 
+def edit_outputs(sh, examples):
+    """Second generator: every text emitted by a successful set/rm of a generated edit history must be a fixed point."""
+    import random
+
+    from hypothesis import HealthCheck, Phase, given, seed, settings
+    from hypothesis import strategies as st
+
+    from vf.props import c05
+
+    doc_kw, op_kw, flags = c05.params_from_quarantine(sh.quarantine)
+
+    @seed(sh.hseed + 7)
+    @settings(max_examples=examples, database=None, deadline=None, suppress_health_check=list(HealthCheck), phases=[Phase.generate])
+    @given(st.integers(0, 2**48))
+    def prop(n):
+        if sh.over_budget():
+            sh.skipped_budget += 1
+            return
+        g = c05.gen_case(n, kw=doc_kw, op_kw=op_kw, flags=flags)
+        if g is None:
+            return
+        text, ops, mode = g
+        bad = []
+
+        def collect(cur, op, path, value, out, notes):
+            if not cst.env_ok(out) or cst.parse(out).root.has_error:
+                return
+            st2, out2 = RT.rebuild(out)
+            cls = "+".join(x for x in notes if not x.startswith("layer-"))
+            if st2 != "ok":
+                bad.append((f"edit-output-second-pass-{st2}|{op}|{cls}", {"doc": cur[:400], "op": [op, path, value], "out": out[:400]}))
+            elif out2 != out:
+                i = next((k for k, (a, b) in enumerate(zip(out, out2)) if a != b), min(len(out), len(out2)))
+                bad.append((f"edit-output-not-fixed-point|{op}|{cls}", {"doc": cur[:400], "op": [op, path, value], "at": i, "first": out[max(0, i - 40) : i + 40], "second": out2[max(0, i - 40) : i + 40]}))
+            else:
+                code, so, se, exc = nima.cli(["test"], out)
+                if exc is not None or (so, code) != ("OK\n", 0):
+                    bad.append((f"edit-output-rejected-by-test|{op}|{cls}", {"out": out[:300], "stdout": so}))
+
+        _f, info = c05.run_case(text, ops, mode, collect=collect)
+        case = {"doc": text, "ops": [list(o) for o in ops], "mode": mode}
+        sh.record(case, info.get("ok_steps", 0) >= 1, ["edit-history", f"oksteps:{min(info.get('ok_steps', 0), 5)}"])
+        for sig, d in bad[:1]:
+            sh.fail(sig, case, d)
+
+    prop()
+
+
+def replay_edit(case):
+    from vf.props import c05
+
+    bad = []
+
+    def collect(cur, op, path, value, out, notes):
+        if not cst.env_ok(out) or cst.parse(out).root.has_error:
+            return
+        st2, out2 = RT.rebuild(out)
+        if st2 != "ok" or out2 != out:
+            bad.append(("edit-output-not-fixed-point", {"op": [op, path, value], "out": out[:300]}))
+
+    c05.run_case(case["doc"], [tuple(o) for o in case["ops"]], case.get("mode", "reparse"), collect=collect)
+    return bad
+
+
 def plan(tier):
     return {"shards": 16, "examples": 600 if tier == "quick" else 15000, "wall_limit": 240 if tier == "quick" else 2400}
 
 
 def run_shard(sh):
     RT.run_shard(sh, CFG)
+    edit_outputs(sh, max(20, int(sh.params["examples"] * sh.params.get("scale", 1.0)) // 3))
 
 
 def replay(case):
+    if "ops" in case:
+        return replay_edit(case)
     return RT.replay(case, CFG)
